@@ -43,6 +43,12 @@ def jobs(tier):
     for h in HASHERS:
         out.append(("hasher-seq.%s" % h, "job_hasher_seq", dict(hasher=h, P1=16384, P2=32768, K=5)))
         out.append(("hasher-seq-down.%s" % h, "job_hasher_seq", dict(hasher=h, P1=65536, P2=16384, K=4)))
+    # content dependent paths: a file whose tail (from a solver-chosen offset) is all zero bytes
+    for h in HASHERS:
+        out.append(("hasher-zeros.%s.P32768" % h, "job_hasher", dict(hasher=h, P=32768, K=3, zeros=True)))
+    # a second creation in the same process (class / module level state must not leak into the second metafile)
+    for first, second in (("2c", "2c"), ("2a", "2a"), ("3c", "2a"), ("2c", "3a"), ("3a", "3c")) if not q else (("2c", "2c"), ("3a", "2a"), ("2a", "3c")):
+        out.append(("tree-second.%s-then-%s" % (first, second), "job_tree_second", dict(first=first, second=second, P=16384)))
     for shp in cr.scheme_shapes(["flat2", "nested3"], tier):
         for which in ("2a", "2c"):
             out.append(("tree.%s.%s.P16384" % (which, shp), "job_tree", dict(which=which, shape=shp, P=16384, K=1 if shp.startswith("nested3") else 2, order="reversed")))
@@ -100,10 +106,17 @@ def _witness(E, s, P):
     E.witness("5 pieces", s == 4 * P + 1)
 
 
-def job_hasher(E, hasher, P, K, _mutants=None):
+def job_hasher(E, hasher, P, K, zeros=False, _mutants=None):
     fs = AFS()
     s = E.int("s0", 1, K * P)
-    path = fs.add("/data/f", ("f", 0), s)
+    content = ABuf.file(("f", 0), s)
+    if zeros:
+        z = E.int("zero_from", 0, None)          # bytes [zero_from, s) are zero
+        E.assume(z < s)
+        content = ABuf.of([("F", ("f", 0), 0, z), ("Z", None, 0, s - z)]) if tb(z > 0) else ABuf(s)
+        path = fs.add_content("/data/f", content)
+    else:
+        path = fs.add("/data/f", ("f", 0), s)
     E.note("files", ["f"])
     w = World(fs, mutants=_mutants)
     try:
@@ -111,7 +124,7 @@ def job_hasher(E, hasher, P, K, _mutants=None):
     except Exception as ex:  # noqa: BLE001
         E.fail("C02.hasher.no-exception", "%s: %s" % (type(ex).__name__, ex))
         return
-    rroot, rlayer, npieces = orc.v2_reference(E, ABuf.file(("f", 0), s), P, "C02")
+    rroot, rlayer, npieces = orc.v2_reference(E, content, P, "C02")
     E.check(root == rroot, "C02.hasher.root", "%s root differs from BEP 52 reference" % hasher)
     if tb(s > P):
         E.check(layer is not None and layer == rlayer, "C02.hasher.layer", "%s piece layer differs from reference" % hasher)
@@ -141,6 +154,30 @@ def job_hasher_seq(E, hasher, P1, P2, K, _mutants=None):
     E.check(root == rroot, "C02.hasher-seq.root", "%s root after an earlier run with another piece length differs from reference" % hasher)
     if tb(s1 > P2):
         E.check(layer is not None and layer == rlayer, "C02.hasher-seq.layer")
+
+
+def job_tree_second(E, first, second, P, _mutants=None):
+    """Two creations in one process over two different trees: the second metafile must describe the second tree only."""
+    fs = AFS(order="reversed")
+    t0 = E.int("t0", P + 1, 3 * P)               # the first tree has a multi-piece file (piece layers are recorded)
+    fs.add("/first/other/big", ("g", 0), t0)
+    fs.add("/first/other/small", ("g", 1), 5)
+    shape = "flat2"
+    rels = SHAPES[shape]
+    sizes = {}
+    for i, r in enumerate(rels):
+        sizes[r] = E.int("s%d" % i, 0, 2 * P)
+        fs.add("/data/" + r, ("f", i), sizes[r])
+    E.assume(disj(*[s > 0 for s in sizes.values()]))
+    E.note("shape", shape)
+    w = World(fs, mutants=_mutants)
+    try:
+        cr.create(w, first, path="/first/other", piece_length=P, progress=0)
+        t = cr.create(w, second, path="/data/name", piece_length=P, progress=0)
+    except Exception as ex:  # noqa: BLE001
+        E.fail("C02.no-exception", "%s: %s" % (type(ex).__name__, ex))
+        return
+    orc.oracle_v2(E, t.meta, sizes, P, shape, "C02.second")
 
 
 def job_tree(E, which, shape, P, K, order, _mutants=None):
@@ -184,9 +221,33 @@ def replay(params, model, notes, workdir, seed):
             bad.append("C02.hasher-seq.layer")
         return bad
     P = params["P"]
+    if "first" in params:
+        shape = "flat2"
+        sizes = cr.concrete_sizes(shape, model)
+        root, data = cr.materialize(workdir, shape, sizes, seed)
+        refconc.write_file(os.path.join(workdir, "first", "other", "big"), refconc.content(("g", 0), int(model["t0"]), seed))
+        refconc.write_file(os.path.join(workdir, "first", "other", "small"), refconc.content(("g", 1), 5, seed))
+        mods = cr.real_torrentfile()
+        T = mods["torrentfile.torrent"]
+        import io
+        import contextlib
+        try:
+            with contextlib.redirect_stdout(io.StringIO()):
+                for which, pth in ((params["first"], os.path.join(workdir, "first", "other")), (params["second"], root)):
+                    cls, mv = cr.CLS[which]
+                    kw = dict(path=pth, piece_length=P, progress=0)
+                    if mv is not None:
+                        kw["meta_version"] = mv
+                    t = getattr(T, cls)(**kw)
+        except Exception as ex:  # noqa: BLE001
+            return ["C02.no-exception: %s: %s" % (type(ex).__name__, ex)]
+        return ["C02.second." + b for b in cr.conc_v2(t.meta, data, P, False)]
     if "hasher" in params:
         s = int(model["s0"])
         data = refconc.content(("f", 0), s, seed)
+        if params.get("zeros"):
+            z = int(model.get("zero_from", 0))
+            data = data[:z] + bytes(s - z)
         p = os.path.join(workdir, "data", "f")
         refconc.write_file(p, data)
         mods = cr.real_torrentfile()
